@@ -46,6 +46,11 @@ fn log(v: Value) {
     LOG.lock().push(v);
 }
 
+/// number of log entries other than the `settled` markers
+fn log_activity() -> usize {
+    LOG.lock().iter().filter(|e| e["e"] != "settled").count()
+}
+
 // ------------------------------------------------------------------------------------ agent
 
 #[derive(AgentLaneModel)]
@@ -144,10 +149,84 @@ fn instruction(context: HandlerContext<TestAgent>, ins: &str) -> Option<BoxEvent
                 .boxed(),
             _ => return None,
         },
+        // other ways an agent's handlers change a lane (same observable effect as set / upd / rem, other code paths)
+        "tv" => {
+            let n = num(2)?;
+            match parts.get(1).copied()? {
+                "val" => context.transform_value(TestAgent::VAL, move |_| n).boxed(),
+                "val2" => context.transform_value(TestAgent::VAL2, move |_| n).boxed(),
+                "tval" => context.transform_value(TestAgent::TVAL, move |_| n).boxed(),
+                _ => return None,
+            }
+        }
+        "te" => {
+            let (k, v) = (num(2)?, num(3)?);
+            match parts.get(1).copied()? {
+                "map" => context.transform_entry(TestAgent::MAP, k, move |_| Some(v)).boxed(),
+                "omap" => context.transform_entry(TestAgent::OMAP, k, move |_| Some(v)).boxed(),
+                "tmap" => context.transform_entry(TestAgent::TMAP, k, move |_| Some(v)).boxed(),
+                _ => return None,
+            }
+        }
+        "ter" => {
+            let k = num(2)?;
+            match parts.get(1).copied()? {
+                "map" => context.transform_entry(TestAgent::MAP, k, move |_| None).boxed(),
+                "omap" => context.transform_entry(TestAgent::OMAP, k, move |_| None).boxed(),
+                "tmap" => context.transform_entry(TestAgent::TMAP, k, move |_| None).boxed(),
+                _ => return None,
+            }
+        }
+        "rmap" => {
+            let (k, v) = (num(2)?, num(3)?);
+            match parts.get(1).copied()? {
+                "map" => context.replace_map(TestAgent::MAP, vec![(k, v)]).boxed(),
+                "omap" => context.replace_map(TestAgent::OMAP, vec![(k, v)]).boxed(),
+                "tmap" => context.replace_map(TestAgent::TMAP, vec![(k, v)]).boxed(),
+                _ => return None,
+            }
+        }
+        // later <ms> <instruction>: the instruction runs from a timer; susp <instruction>: from a suspended future
+        "later" => {
+            let ms = num(1)? as u64;
+            let rest = parts[2..].join(" ");
+            context.run_after(Duration::from_millis(ms), Deferred { text: rest, inner: None }).boxed()
+        }
+        "susp" => {
+            let rest = parts[1..].join(" ");
+            context.suspend(async move { Deferred { text: rest, inner: None } }).boxed()
+        }
         "stop" => context.stop().boxed(),
         _ => return None,
     };
     Some(h)
+}
+
+/// An instruction that is only turned into a handler when it is first stepped (the boxed handlers are not
+/// `Send`; the harness runs on one thread).
+struct Deferred {
+    text: String,
+    inner: Option<BoxEventHandler<'static, TestAgent>>,
+}
+
+unsafe impl Send for Deferred {}
+
+impl swimos::agent::event_handler::HandlerAction<TestAgent> for Deferred {
+    type Completion = ();
+    fn step(
+        &mut self,
+        action_context: &mut swimos::agent::event_handler::ActionContext<TestAgent>,
+        meta: swimos_agent::AgentMetadata,
+        context: &TestAgent,
+    ) -> swimos::agent::event_handler::StepResult<Self::Completion> {
+        if self.inner.is_none() {
+            let hc: HandlerContext<TestAgent> = HandlerContext::default();
+            let text = self.text.clone();
+            log(json!({"e": "deferred", "v": text}));
+            self.inner = Some(instruction(hc, &self.text).unwrap_or_else(|| hc.effect(|| ()).boxed()));
+        }
+        self.inner.as_mut().unwrap().step(action_context, meta, context)
+    }
 }
 
 /// `send_command` borrows its address strings; this owns them.
@@ -694,9 +773,13 @@ impl World {
 
     async fn quiesce(&mut self) {
         // drain every remote and every target until nothing moves any more
+        // (the paused clock creeps by a millisecond per settle, so an agent timer may fire inside any of them: the
+        // agent is only quiescent if a whole round passed in which nothing was logged, read or written)
+        let mut calm = 0;
         for _ in 0..10_000 {
-            self.settle().await;
+            let l0 = log_activity();
             let b0 = bytes_read();
+            self.settle().await;
             let mut progress = 0;
             let ids: Vec<u64> = self.remotes.keys().copied().collect();
             for r in ids {
@@ -705,11 +788,15 @@ impl World {
                 }
             }
             progress += self.read_targets();
-            if progress == 0 && bytes_read() == b0 {
-                break;
+            if progress == 0 && bytes_read() == b0 && log_activity() == l0 {
+                calm += 1;
+                if calm >= 2 {
+                    break;
+                }
+            } else {
+                calm = 0;
             }
         }
-        self.settle().await;
         let mut drained: Vec<u64> = RXS.lock().as_ref().map(|m| m.keys().copied().collect()).unwrap_or_default();
         drained.sort();
         log(json!({"e": "quiescent", "drained": drained}));
